@@ -485,8 +485,11 @@ def run_check(spec, tier, verif_seed):
         cov["harness_errors"] = errors[:5]
     evidence = dict(property_id=spec.prop, tier=tier, seed=int(verif_seed), level=spec.level, coverage=cov,
                     assumptions=list(spec.assumptions), wall_s=round(wall, 2), violations=n_unlisted)
-    os.makedirs(os.path.join(env.VERIF_DIR, "evidence"), exist_ok=True)
-    with open(os.path.join(env.VERIF_DIR, "evidence", f"{spec.prop}.json"), "w") as f:
+    # the official evidence file describes /repo itself; runs against another tree (mutants, seeded changes) write elsewhere
+    ev_dir = os.path.join(env.VERIF_DIR, "evidence") if os.path.realpath(env.repo_dir()) == "/repo" \
+        else os.path.join(env.VERIF_DIR, ".work", "evidence_other_tree")
+    os.makedirs(ev_dir, exist_ok=True)
+    with open(os.path.join(ev_dir, f"{spec.prop}.json"), "w") as f:
         json.dump(evidence, f, indent=1, sort_keys=True)
     for l in out_lines:
         print(l)
